@@ -375,3 +375,287 @@ Example parse_check_accepted_nonvacuous : forall fo : fops,
               stmt_positions s = [0; 31; 45; 56; 7; 17; 17; 23; 39; 37; 41; 54] /\
               cstmt_positions c = [7; 17; 17; 23; 7; 39; 37; 17; 17; 23; 7; 41; 54].
 Proof. intros fo. eexists. eexists. split; [vm_compute; reflexivity|]. split; vm_compute; reflexivity. Qed.
+
+(* ---------------------------------------------------------------- part 2, EXECUTION (T3): the
+   positions of errors raised while an ACCEPTED statement runs, and what the constant folder
+   does to positions -- over the real twins (row evaluator Model/Eval.v, batch evaluator
+   Model/EvalVec.v, constant folder Model/Fold.v, its statement-level in-place effect
+   Model/FoldStmt.v, scan + filter + projection drain Model/ScanProj.v), composed with
+   parse_check.  This discharges, for expression evaluation and for the drain of a SELECT
+   without ORDER BY / GROUP BY / LIMIT, the statement the header keeps as a comment
+   (exec_err_pos_in_query); the abstract model Model/ErrPos.v is no longer what covers the
+   executor and the folder.
+
+   [fo] is the float structure (no law assumed), [re] the regular-expression oracle
+   (regexp.Compile + Match: library code).  One premise on the oracle, [re_plain re]: it
+   returns no kvql error with a position -- execRegexpMatch hands regexp.Compile's error on as
+   it is, a plain Go error.  Everything else is for every expression tree / every query text,
+   every pair, every chunk, every batch size.
+
+   (i) the evaluators invent no position.  No error of the twins is built with a literal 0 or -1
+   (in the Go code only AggregatePlan does that, see below): every `args[i].GetPos()` of a
+   function body lies behind the arity check of FunctionCallExpr.Execute, which the proof uses. *)
+From KV Require Import Model.Eval Model.EvalVec Model.Fold Model.FoldStmt Model.ScanProj
+                       Proofs.ExecPosProofs.
+
+Theorem eval_err_position :
+  forall (fo : fops) (re : string -> string -> res bool), re_plain re ->
+  forall (k v : string) (e : expr) (p : nat),
+  eval fo re k v e = Err (EExec p) -> In p (positions e).
+Proof. exact eval_err_position_lemma. Qed.
+Print Assumptions eval_err_position.
+
+(* ... also for the SyntaxErrors Execute can return (function lookup, field-name expression) *)
+Theorem eval_err_position_syntax :
+  forall (fo : fops) (re : string -> string -> res bool), re_plain re ->
+  forall (k v : string) (e : expr) (p : nat),
+  eval fo re k v e = Err (ESyntax p) -> In p (positions e).
+Proof. exact eval_err_position_syntax_lemma. Qed.
+Print Assumptions eval_err_position_syntax.
+
+(* FilterExec.Filter: "where expression result is not boolean" is raised at the root *)
+Theorem filter_row_err_position :
+  forall (fo : fops) (re : string -> string -> res bool), re_plain re ->
+  forall (k v : string) (e : expr) (p : nat),
+  filter_row fo re k v e = Err (EExec p) -> In p (positions e).
+Proof. exact filter_row_err_position_lemma. Qed.
+Print Assumptions filter_row_err_position.
+
+(* batch mode (both variants of the BETWEEN type test, EvalVec.fixed_between) *)
+Theorem eval_batch_err_position :
+  forall (fo : fops) (re : string -> string -> res bool) (fixed_between : bool), re_plain re ->
+  forall (e : expr) (ch : list kvpair) (p : nat),
+  eval_batch fo re fixed_between e ch = Err (EExec p) -> In p (positions e).
+Proof. exact eval_batch_err_position_lemma. Qed.
+Print Assumptions eval_batch_err_position.
+
+Theorem filter_batch_err_position :
+  forall (fo : fops) (re : string -> string -> res bool) (fixed_between : bool), re_plain re ->
+  forall (e : expr) (ch : list kvpair) (p : nat),
+  filter_batch fo re fixed_between e ch = Err (EExec p) -> In p (positions e).
+Proof. exact filter_batch_err_position_lemma. Qed.
+Print Assumptions filter_batch_err_position.
+
+(* The field-reference case is part of the statements above: [positions (ERef p name d)] is
+   p :: positions d -- a reference evaluates its definition, the position then belongs to the
+   DEFINITION (a field of the same statement, see accepted_positions_are_token_starts, which
+   counts the definitions under references).
+
+   Statement level: the drain of SELECT fields WHERE wh (scan, filter, projection; [fields = None]
+   is `select *`), row mode and batch mode, over any stream of slots, at any batch size: an
+   ExecuteError (the evaluators' and "Expression result type not support" of the projection)
+   carries the Pos of a node of the WHERE tree or of a field *)
+Theorem select_drain_err_position :
+  forall (fo : fops) (re : string -> string -> res bool), re_plain re ->
+  forall (wh : expr) (fields : option (list expr)) (slots : list (option kvpair)) (p : nat),
+  select_row fo re wh fields slots = Err (EExec p) -> In p (select_positions wh fields).
+Proof. exact select_row_err_position_lemma. Qed.
+Print Assumptions select_drain_err_position.
+
+Theorem select_drain_batch_err_position :
+  forall (fo : fops) (re : string -> string -> res bool), re_plain re ->
+  forall (B : nat) (wh : expr) (fields : option (list expr)) (slots : list (option kvpair)) (p : nat),
+  select_batch fo re B wh fields slots = Err (EExec p) -> In p (select_positions wh fields).
+Proof. exact select_batch_err_position_lemma. Qed.
+Print Assumptions select_drain_batch_err_position.
+
+(* (ii) the constant folder invents no position: every Pos of the folded tree is a Pos of the
+   tree it was given.  A folded literal stands at the position of the call it replaces or of the
+   LEFT operand of the operator it replaces; re-association builds its new BinaryOpExpr at the
+   position of the operator it re-arranges and drops the position of the operator it dissolves.
+   No premise on the oracles. *)
+Theorem fold_positions :
+  forall (fo : fops) (re : string -> string -> res bool) (fmt_v : F fo -> string) (e : expr),
+  incl (positions (fold fo re fmt_v e)) (positions e).
+Proof. exact fold_positions_lemma. Qed.
+Print Assumptions fold_positions.
+
+(* the single stages: re-association, one pass *)
+Theorem fold_stage_positions :
+  forall (fo : fops) (re : string -> string -> res bool) (fmt_v : F fo -> string) (e : expr),
+  incl (positions (reorder e)) (positions e) /\
+  incl (positions (optimize fo re fmt_v e)) (positions e).
+Proof. intros fo re fmt_v e. split; [exact (reorder_positions_lemma e) | exact (optimize_positions_lemma fo re fmt_v e)]. Qed.
+Print Assumptions fold_stage_positions.
+
+(* The folder works IN PLACE and a FieldReferenceExpr points to the root object of the field it
+   names: what a reference evaluates after BuildPlan is that object as the two passes left it
+   (operands folded, root not replaced -- Model/FoldStmt.v in_place), and the tree a plan
+   executes is [exec_tree T] = the folded tree with every reference re-pointed.  Both carry
+   positions of the original only. *)
+Theorem fold_in_place_positions :
+  forall (fo : fops) (re : string -> string -> res bool) (fmt_v : F fo -> string) (e : expr),
+  incl (positions (in_place fo re fmt_v e)) (positions e) /\
+  incl (positions (exec_tree fo re fmt_v e)) (positions e).
+Proof. intros fo re fmt_v e. split; [exact (in_place_positions_lemma fo re fmt_v e) | exact (exec_tree_positions_lemma fo re fmt_v e)]. Qed.
+Print Assumptions fold_in_place_positions.
+
+(* An error met WHILE folding is never reported: tryOptimizeBinaryOpExecute and
+   tryOptimizeFunctionCall test `err == nil` and return the node unfolded otherwise, Optimize
+   returns a tree, BuildPlan cannot fail in the folder ([fold] is a total function into trees).
+   The error comes back, with the position (i) gives it, when the plan executes the node. *)
+Theorem fold_reports_no_error :
+  forall (fo : fops) (re : string -> string -> res bool) (fmt_v : F fo -> string),
+  (forall p o l r x, is_value l = true -> is_value r = true ->
+     const_eval fo re (EBin p o l r) = Err x ->
+     try_exec fo re fmt_v (EBin p o l r) = (EBin p o l r, false)) /\
+  (forall p n args x, const_eval fo re (ECall p n args) = Err x ->
+     call_fold fo re fmt_v p n args = (ECall p n args, false)).
+Proof.
+  intros fo re fmt_v. split.
+  - exact (try_exec_error_unfolded_lemma fo re fmt_v).
+  - exact (call_fold_error_unfolded_lemma fo re fmt_v).
+Qed.
+Print Assumptions fold_reports_no_error.
+
+(* (iii) composition with parse_check: for EVERY query text q that is accepted, every tree T of
+   the checked statement (fields, WHERE; PUT pairs, REMOVE keys, DELETE's WHERE), its folded
+   form, every pair: an execution error of the row evaluator carries an offset z that is 0 or
+   the start of one of the tokens of q, and z lies inside q *)
+Theorem exec_err_pos_row :
+  forall (fo : fops) (re : string -> string -> res bool) (fmt_v : F fo -> string), re_plain re ->
+  forall (q : string) (s : StmtParser.stmt) (c : Checker.stmt) (a : bool) (T : expr) (k v : string) (p : nat),
+  parse_check fo q = PCOk s c a -> In T (cstmt_exprs c) ->
+  eval fo re k v (fold fo re fmt_v T) = Err (EExec p) \/
+  filter_row fo re k v (fold fo re fmt_v T) = Err (EExec p) ->
+  (Z.of_nat p = 0%Z \/ In (Z.of_nat p) (zstarts (lex q))) /\ pos_in_query q (Z.of_nat p) = true.
+Proof. exact exec_err_pos_row_lemma. Qed.
+Print Assumptions exec_err_pos_row.
+
+(* ... of the batch evaluator, every chunk *)
+Theorem exec_err_pos_batch :
+  forall (fo : fops) (re : string -> string -> res bool) (fmt_v : F fo -> string), re_plain re ->
+  forall (q : string) (s : StmtParser.stmt) (c : Checker.stmt) (a : bool) (T : expr)
+         (fixed_between : bool) (ch : list kvpair) (p : nat),
+  parse_check fo q = PCOk s c a -> In T (cstmt_exprs c) ->
+  eval_batch fo re fixed_between (fold fo re fmt_v T) ch = Err (EExec p) \/
+  filter_batch fo re fixed_between (fold fo re fmt_v T) ch = Err (EExec p) ->
+  (Z.of_nat p = 0%Z \/ In (Z.of_nat p) (zstarts (lex q))) /\ pos_in_query q (Z.of_nat p) = true.
+Proof. exact exec_err_pos_batch_lemma. Qed.
+Print Assumptions exec_err_pos_batch.
+
+(* ... on the tree the plan really executes (references see the field objects as the folder
+   left them), both evaluators *)
+Theorem exec_err_pos_executed_tree :
+  forall (fo : fops) (re : string -> string -> res bool) (fmt_v : F fo -> string), re_plain re ->
+  forall (q : string) (s : StmtParser.stmt) (c : Checker.stmt) (a : bool) (T : expr) (p : nat),
+  parse_check fo q = PCOk s c a -> In T (cstmt_exprs c) ->
+  (exists k v, eval fo re k v (exec_tree fo re fmt_v T) = Err (EExec p) \/
+               filter_row fo re k v (exec_tree fo re fmt_v T) = Err (EExec p)) \/
+  (exists fb ch, eval_batch fo re fb (exec_tree fo re fmt_v T) ch = Err (EExec p) \/
+                 filter_batch fo re fb (exec_tree fo re fmt_v T) ch = Err (EExec p)) ->
+  (Z.of_nat p = 0%Z \/ In (Z.of_nat p) (zstarts (lex q))) /\ pos_in_query q (Z.of_nat p) = true.
+Proof. exact exec_err_pos_exec_tree_lemma. Qed.
+Print Assumptions exec_err_pos_executed_tree.
+
+(* ... and on the checked tree itself (PUT / REMOVE trees are executed unfolded) *)
+Theorem exec_err_pos_unfolded :
+  forall (fo : fops) (re : string -> string -> res bool), re_plain re ->
+  forall (q : string) (s : StmtParser.stmt) (c : Checker.stmt) (a : bool) (T : expr) (p : nat),
+  parse_check fo q = PCOk s c a -> In T (cstmt_exprs c) ->
+  (exists k v, eval fo re k v T = Err (EExec p)) \/
+  (exists fb ch, eval_batch fo re fb T ch = Err (EExec p)) ->
+  (Z.of_nat p = 0%Z \/ In (Z.of_nat p) (zstarts (lex q))) /\ pos_in_query q (Z.of_nat p) = true.
+Proof. exact exec_err_pos_unfolded_lemma. Qed.
+Print Assumptions exec_err_pos_unfolded.
+
+(* the general form: ANY tree that carries only positions stored in the checked statement
+   (whatever a later rewriting does, as long as it invents no position), all four entry points *)
+Theorem exec_err_pos_general :
+  forall (fo : fops) (re : string -> string -> res bool), re_plain re ->
+  forall (q : string) (s : StmtParser.stmt) (c : Checker.stmt) (a : bool) (X : expr),
+  parse_check fo q = PCOk s c a -> incl (positions X) (cstmt_positions c) ->
+  (forall k v p, eval fo re k v X = Err (EExec p) ->
+     (Z.of_nat p = 0%Z \/ In (Z.of_nat p) (zstarts (lex q))) /\ pos_in_query q (Z.of_nat p) = true) /\
+  (forall k v p, filter_row fo re k v X = Err (EExec p) ->
+     (Z.of_nat p = 0%Z \/ In (Z.of_nat p) (zstarts (lex q))) /\ pos_in_query q (Z.of_nat p) = true) /\
+  (forall fb ch p, eval_batch fo re fb X ch = Err (EExec p) ->
+     (Z.of_nat p = 0%Z \/ In (Z.of_nat p) (zstarts (lex q))) /\ pos_in_query q (Z.of_nat p) = true) /\
+  (forall fb ch p, filter_batch fo re fb X ch = Err (EExec p) ->
+     (Z.of_nat p = 0%Z \/ In (Z.of_nat p) (zstarts (lex q))) /\ pos_in_query q (Z.of_nat p) = true).
+Proof. exact exec_err_pos_general_lemma. Qed.
+Print Assumptions exec_err_pos_general.
+
+(* the header's exec_err_pos_in_query, for a SELECT that buildFinalPlan turns into a
+   ProjectionPlan over a scan (no ORDER BY / GROUP BY / LIMIT): the whole drain, row mode or
+   batch mode, whatever the scan yields ([slots]: any stream, so every access path), any batch
+   size, on the trees the plan executes: the offset of an ExecuteError is 0 or a token start
+   of q, inside q.  ([all_fields] is SelectStmt.AllFields, `select *`.) *)
+Theorem select_exec_err_pos_in_query :
+  forall (fo : fops) (re : string -> string -> res bool) (fmt_v : F fo -> string), re_plain re ->
+  forall (q : string) (s : StmtParser.stmt) (fields : list (string * expr)) (w : expr)
+         (order : list (nat * string)) (a all_fields : bool) (slots : list (option kvpair)) (B p : nat),
+  parse_check fo q = PCOk s (Checker.SSelect fields w order) a ->
+  select_row fo re (exec_tree fo re fmt_v w)
+             (if all_fields then None else Some (exec_fields fo re fmt_v fields)) slots = Err (EExec p) \/
+  select_batch fo re B (exec_tree fo re fmt_v w)
+             (if all_fields then None else Some (exec_fields fo re fmt_v fields)) slots = Err (EExec p) ->
+  (Z.of_nat p = 0%Z \/ In (Z.of_nat p) (zstarts (lex q))) /\ pos_in_query q (Z.of_nat p) = true.
+Proof. exact select_err_pos_lemma. Qed.
+Print Assumptions select_exec_err_pos_in_query.
+
+(* STILL outside these theorems (abstract model + correspondence only): errors raised by plan
+   nodes other than scan / filter / projection -- AggregatePlan and the aggregate functions
+   (aggregate_plan.go, aggr_func.go: two of their errors are built with NewExecuteError(0, ...),
+   the others with the Pos of a call or of args[1]), FinalOrderPlan's "Cannot find field"; the
+   expressions those plans evaluate are covered by exec_err_pos_general.  Storage errors carry
+   no position. *)
+
+(* ---------------------------------------------------------------- non-vacuity (T3).  For every
+   float structure, oracle and float printer.  A division by zero met in the data: the position
+   is the offset of the DIVISOR (executeMathOp gets e.Right), here the call int(value) at 20 *)
+Example exec_err_div0_nonvacuous : forall (fo : fops) (re : string -> string -> res bool) (fmt_v : F fo -> string),
+  let q := "select * where 10 / int(value) > 1" in
+  exists w, pc_where (parse_check fo q) = Some w /\
+    filter_row fo re "k1" "0" (fold fo re fmt_v w) = Err (EExec 20) /\
+    filter_batch fo re true (fold fo re fmt_v w) [("k0", "5"); ("k1", "0")] = Err (EExec 20) /\
+    filter_row fo re "k0" "5" (fold fo re fmt_v w) = Ok true /\
+    In 20%Z (zstarts (lex q)) /\ String.get 20 q = Some "i"%char.
+Proof. intros fo re fmt_v q. eexists. split; [vm_compute; reflexivity|]. repeat split; vm_compute; try reflexivity. tauto. Qed.
+
+(* a constant divisor: folding (1 - 1) succeeds and puts the literal 0 at the offset of the
+   LEFT operand (21); folding 10 / 0 fails and is not reported; the statement is accepted and
+   fails on the first pair, at 21 -- unfolded it would be the `-` at 23.  BETWEEN with crossed
+   bounds is reported at the operator *)
+Example exec_err_folded_nonvacuous : forall (fo : fops) (re : string -> string -> res bool) (fmt_v : F fo -> string),
+  let q := "select * where 10 / (1 - 1) > 1" in
+  exists w, pc_where (parse_check fo q) = Some w /\
+    filter_row fo re "k" "v" w = Err (EExec 23) /\
+    filter_row fo re "k" "v" (fold fo re fmt_v w) = Err (EExec 21) /\
+    filter_batch fo re true (fold fo re fmt_v w) [("k", "v")] = Err (EExec 21) /\
+    In 21%Z (zstarts (lex q)) /\ In 23%Z (zstarts (lex q)) /\
+  exists w2, pc_where (parse_check fo "select * where value between 'z' and 'a'") = Some w2 /\
+    filter_row fo re "k" "v" (fold fo re fmt_v w2) = Err (EExec 21).
+Proof.
+  intros fo re fmt_v q. eexists. split; [vm_compute; reflexivity|].
+  split; [vm_compute; reflexivity|]. split; [vm_compute; reflexivity|]. split; [vm_compute; reflexivity|].
+  split; [vm_compute; tauto|]. split; [vm_compute; tauto|].
+  eexists. split; [vm_compute; reflexivity | vm_compute; reflexivity].
+Qed.
+
+(* a reference: WHERE uses the alias x of a field whose divisor is constant.  The reference
+   evaluates the field object as the folder left it IN PLACE (its right operand is the literal
+   0 at 13), so the drain fails at 13 in both modes; the per-tree fold of WHERE alone (the
+   reference still carrying the unfolded definition) would say 15 *)
+Example exec_err_reference_nonvacuous : forall (fo : fops) (re : string -> string -> res bool) (fmt_v : F fo -> string),
+  let q := "select 10 / (1 - 1) as x, key where x > 1" in
+  exists w, pc_where (parse_check fo q) = Some w /\
+    filter_row fo re "k" "5" (fold fo re fmt_v w) = Err (EExec 15) /\
+    filter_row fo re "k" "5" (exec_tree fo re fmt_v w) = Err (EExec 13) /\
+    select_row fo re (exec_tree fo re fmt_v w)
+      (Some (map (exec_tree fo re fmt_v) (pc_fields (parse_check fo q)))) [Some ("k", "5")] = Err (EExec 13) /\
+    select_batch fo re 2 (exec_tree fo re fmt_v w)
+      (Some (map (exec_tree fo re fmt_v) (pc_fields (parse_check fo q)))) [Some ("k", "5")] = Err (EExec 13) /\
+    In 13%Z (zstarts (lex q)) /\ In 15%Z (zstarts (lex q)).
+Proof.
+  intros fo re fmt_v q. eexists. split; [vm_compute; reflexivity|].
+  split; [vm_compute; reflexivity|]. split; [vm_compute; reflexivity|]. split; [vm_compute; reflexivity|].
+  split; [vm_compute; reflexivity|]. split; vm_compute; tauto.
+Qed.
+
+(* the premise on the oracle is satisfiable: an oracle that models nothing, one whose pattern
+   does not compile (a plain error), one that answers *)
+Example re_plain_nonvacuous :
+  re_plain (fun _ _ => OutOfModel) /\ re_plain (fun _ _ => Err EOther) /\
+  re_plain (fun pat text => Ok (String.eqb pat text)).
+Proof. exact re_plain_examples. Qed.
